@@ -332,10 +332,28 @@ def check(pid, tier, cfg, replay=None):
         else:
             htimeout = cfg.get("harness_timeout", {}).get(tier, 900 if tier == "quick" else 3600)
             extra = ["-replay", replay] if replay else None
+            hung = []
             for attempt in range(2):
                 rc, out, res = run_harness(pid, tier, seed, outdir, log, htimeout, extra)
                 if res is not None and rc == 0 and not res.get("infra_errors"):
                     break
+                if res is None and rc == 124:
+                    # the harness did not return within a timeout that is many times its normal run time: remember the
+                    # case it was running; the same case on both attempts = the implementation does not return on it
+                    try:
+                        hung.append(json.load(open(os.path.join(outdir, "current.json"))))
+                    except Exception:  # noqa
+                        hung.append(None)
+                    if len(hung) == 2 and hung[0] is not None and hung[1] is not None \
+                            and hung[0].get("canonical") == hung[1].get("canonical"):
+                        cur = hung[1]
+                        res = {"property": pid, "evaluations": 1, "distinct_nontrivial": 0, "rule": "hang", "samples": [cur],
+                               "distribution": {}, "infra_errors": [], "model_cases": 0, "crashed": True,
+                               "failures": [{"canonical": "HANG " + cur.get("canonical", "?"),
+                                             "detail": "the implementation did not return on this case within %ds (twice)" % htimeout,
+                                             "case": cur.get("case")}]}
+                        rc = 0
+                        break
                 notes.append("harness attempt %d: rc=%s infra=%s tail=%s" % (attempt, rc, (res or {}).get("infra_errors"), out[-1500:]))
                 if res is not None and res.get("failures"):
                     break
